@@ -6,11 +6,11 @@
    no line holds another of str.splitlines' break characters. *)
 From Coq Require Import ZArith List Bool Lia.
 From Mistletoe Require Import Base.Sx Base.PyStr Base.PyText Gen.GenTables Gen.GenConfig Gen.GenEscapes Model.Fillers Model.Tree Model.CoreTokens Model.Block Model.Build
-     Model.DocLines Model.HtmlRenderer Model.Parser Proofs.PlainProse Proofs.Prose Proofs.ListLaw Proofs.FenceLaw Spec.Fragment Proofs.FragmentP Proofs.FragmentDoc.
+     Model.DocLines Model.HtmlRenderer Model.Parser Proofs.PlainProse Proofs.Prose Proofs.ProseLines Proofs.ListLaw Proofs.FenceLaw Spec.Fragment Proofs.FragmentP Proofs.FragmentDoc.
 Import ListNotations.
 Local Open Scope Z_scope.
 
-Definition is_fpara (t : ftree) : bool := match t with FPara _ _ => true | _ => false end.
+Definition is_fpara (t : ftree) : bool := match t with FPara _ _ _ => true | _ => false end.
 Definition first_fpara (ts : list ftree) : bool := match ts with t :: _ => is_fpara t | [] => false end.
 Definition last_fpara (ts : list ftree) : bool := match rev ts with t :: _ => is_fpara t | [] => false end.
 
@@ -23,13 +23,16 @@ Definition list_close (mk : marker) : str := match mk with MBullet _ => $"</ul>"
 
 Fixpoint html_f (o : hopts) (tight : bool) (t : ftree) : str :=
   match t with
-  | FPara c body => if tight then escape_html_text o (c :: body) else $"<p>" ++ escape_html_text o (c :: body) ++ $"</p>"
+  | FPara c body more =>
+    let inner := join [10] (map (escape_html_text o) ((c :: body) :: more)) in
+    if tight then inner else $"<p>" ++ inner ++ $"</p>"
   | FFence _ _ content => $"<pre><code>" ++ escape_html_text o (concat (map render_line content)) ++ $"</code></pre>"
   | FQuote ts => $"<blockquote>" ++ [10] ++ join [10] (map (html_f o false) ts) ++ [10] ++ $"</blockquote>"
   | FItem mk pad ts =>
     let tight' := negb (1 <? Z.of_nat (length ts)) in
     list_open mk ++ [10] ++ $"<li>" ++ (if tight' && first_fpara ts then [] else [10]) ++
     join [10] (map (html_f o tight') ts) ++ (if tight' && last_fpara ts then [] else [10]) ++ $"</li>" ++ [10] ++ list_close mk
+  | FHead lv c body => $"<h" ++ [48 + Z.of_nat lv] ++ $">" ++ escape_html_text o (c :: body) ++ $"</h" ++ [48 + Z.of_nat lv] ++ $">"
   end.
 
 (* ---- serialisation ---- *)
@@ -66,9 +69,9 @@ Lemma tok_seq_plain ts : tok_seq false ts = map (tok_of false) ts.
 Proof. induction ts as [|t r IH]; [reflexivity|]. cbn [tok_seq map blank_tok app]. destruct r; [reflexivity|]. rewrite IH. reflexivity. Qed.
 
 Lemma first_para_tok ts : first_is_paragraph (map (tok_of false) ts) = first_fpara ts.
-Proof. destruct ts as [|[ | | | ] r]; reflexivity. Qed.
+Proof. destruct ts as [|[ | | | | ] r]; reflexivity. Qed.
 Lemma last_para_tok ts : last_is_paragraph (map (tok_of false) ts) = last_fpara ts.
-Proof. unfold last_is_paragraph, last_fpara. rewrite <- map_rev. destruct (rev ts) as [|[ | | | ] r]; reflexivity. Qed.
+Proof. unfold last_is_paragraph, last_fpara. rewrite <- map_rev. destruct (rev ts) as [|[ | | | | ] r]; reflexivity. Qed.
 
 Lemma marker_list mk : marker_ok mk ->
   (if slen (marker_str mk) =? 1 then None else Some (int_of_digits (removelast (marker_str mk)))) =
@@ -79,15 +82,46 @@ Proof.
   destruct (Z.of_nat (S (length ds) + 1) =? 1) eqn:E; [apply Z.eqb_eq in E; lia|reflexivity].
 Qed.
 
+Lemma render_prose_gen o s h : forall ls, ls <> [] ->
+  serialize (flat_map (render o s h) (prose_toks ls)) = join [10] (map (escape_html_text o) ls).
+Proof.
+  induction ls as [|l r IH]; [contradiction|]. intros _. destruct r as [|l2 r'].
+  - cbn [prose_toks flat_map render map join]. unfold serialize. cbn [flat_map ser_item app]. rewrite app_nil_r. reflexivity.
+  - change (prose_toks (l :: l2 :: r')) with (RawText l :: LineBreak [] true :: prose_toks (l2 :: r')).
+    cbn [flat_map render]. unfold serialize in *. rewrite !flat_map_app. cbn [flat_map ser_item nl app]. rewrite IH by discriminate.
+    change (map (escape_html_text o) (l :: l2 :: r')) with (escape_html_text o l :: map (escape_html_text o) (l2 :: r')).
+    cbn [join map]. rewrite app_nil_r. reflexivity.
+Qed.
+
+Lemma html_para o sup c body more :
+  serialize (render o sup false (tok_of false (FPara c body more))) = html_f o sup (FPara c body more).
+Proof.
+  cbn [tok_of render html_f]. destruct sup.
+  - apply render_prose_gen. discriminate.
+  - unfold wrap. change (IOpen $"p" [] :: flat_map (render o false false) (prose_toks ((c :: body) :: more)) ++ [IClose $"p"])
+      with ([IOpen $"p" []] ++ flat_map (render o false false) (prose_toks ((c :: body) :: more)) ++ [IClose $"p"]).
+    rewrite !serialize_app. rewrite render_prose_gen by discriminate. cbn. rewrite ?app_nil_r. reflexivity.
+Qed.
+
+Lemma html_head o sup lv c body : (1 <= lv <= 6)%nat ->
+  serialize (render o sup false (tok_of false (FHead lv c body))) = html_f o sup (FHead lv c body).
+Proof.
+  intros H. cbn [tok_of render html_f flat_map]. change (fill o html_raw_text (c :: body)) with (escape_html_text o (c :: body)).
+  set (T := escape_html_text o (c :: body)).
+  assert (lv = 1 \/ lv = 2 \/ lv = 3 \/ lv = 4 \/ lv = 5 \/ lv = 6)%nat as D by lia.
+  destruct D as [->|[->|[->|[->|[->| ->]]]]]; cbn; rewrite ?app_nil_r; reflexivity.
+Qed.
+
 Lemma html_fragment o : forall f t sup, (depth t <= f)%nat -> wf_b t = true ->
   serialize (render o sup false (tok_of false t)) = html_f o sup t.
 Proof.
   induction f as [|f IH]; intros t sup Hd Hw.
-  - destruct t as [c body|ch n content|ts|mk pad ts]; [| |cbn [depth] in Hd; lia|cbn [depth] in Hd; lia].
-    + cbn [tok_of render flat_map html_f]. destruct sup; cbn; rewrite ?app_nil_r; reflexivity.
+  - destruct t as [c body more|ch n content|ts|mk pad ts|lv hc hb]; [| |cbn [depth] in Hd; lia|cbn [depth] in Hd; lia|].
+    + apply html_para.
     + cbn [tok_of render html_f f_language f_content]. cbn. rewrite ?app_nil_r. reflexivity.
-  - destruct t as [c body|ch n content|ts|mk pad ts].
-    + cbn [tok_of render flat_map html_f]. destruct sup; cbn; rewrite ?app_nil_r; reflexivity.
+    + apply html_head. cbn [wf_b] in Hw. repeat rewrite andb_true_iff in Hw. destruct Hw as [[[[[[H1 H2] _] _] _] _] _]. apply Nat.leb_le in H1, H2. lia.
+  - destruct t as [c body more|ch n content|ts|mk pad ts|lv hc hb]; [| | | |apply html_head; cbn [wf_b] in Hw; repeat rewrite andb_true_iff in Hw; destruct Hw as [[[[[[H1 H2] _] _] _] _] _]; apply Nat.leb_le in H1, H2; lia].
+    + apply html_para.
     + cbn [tok_of render html_f f_language f_content]. cbn. rewrite ?app_nil_r. reflexivity.
     + cbn [wf_b] in Hw. repeat rewrite andb_true_iff in Hw. destruct Hw as [[Hs Hall] Hg].
       assert (Hne : ts <> []) by (destruct ts; [discriminate|discriminate]).
@@ -122,7 +156,7 @@ Qed.
 
 Lemma html_f_starts o t : exists r, html_f o false t = 60 :: r.
 Proof.
-  destruct t as [c body|ch n content|ts|mk pad ts]; cbn [html_f]; try (eexists; reflexivity).
+  destruct t as [c body more|ch n content|ts|mk pad ts|lv hc hb]; cbn [html_f]; try (eexists; reflexivity).
   destruct mk as [b|ds d]; cbn [list_open]; [eexists; reflexivity|]. destruct (int_of_digits ds =? 1); eexists; reflexivity.
 Qed.
 
@@ -134,7 +168,7 @@ Qed.
 
 (* Document(lines), rendered to HTML *)
 Theorem fragment_html cfg o t :
-  fragment_config (cfg_block cfg) = true -> forallb kind_quiet (removelast (cfg_span cfg)) = true -> wf_b t = true ->
+  fragment_config (cfg_block cfg) = true -> prose_spans (cfg_span cfg) = true -> wf_b t = true ->
   render_html o (fst (fst (parse_lines cfg (text_of (spell t))))) = html_f o false t ++ [10].
 Proof.
   intros Hc Hq Hw. rewrite (fragment_document cfg t Hc Hq Hw).
@@ -202,7 +236,7 @@ Qed.
 
 Example html_instance :
   let fence := FFence 96 3 [SLine 2 120 $" < 1"; SBlank; SLine 0 35 $" not a heading"] in
-  let t := FQuote [FItem (MOrdered $"12" 41) 1 [FPara 101 []; fence]; FPara 120 []; FItem (MBullet 45) 2 [FPara 97 $" > b"]] in
+  let t := FQuote [FItem (MOrdered $"12" 41) 1 [FPara 101 [] []; fence]; FPara 120 [] []; FItem (MBullet 45) 2 [FPara 97 $" > b" []]] in
   wf_b t = true /\ one_string_ok t = true /\
   html_f (mkHopts false false) false t =
     $"<blockquote>" ++ [10] ++ $"<ol start=""12"">" ++ [10] ++ $"<li>" ++ [10] ++ $"<p>e</p>" ++ [10] ++
